@@ -20,6 +20,7 @@
 //     a throwing buffer (THROW_READ) must give a failure ("catches all exceptions produced by
 //     _input and returns them as an error").
 #include "C12_common.hpp"
+#include "C12_faultbuf.hpp"
 
 #include <fcppt/parse/basic_char.hpp>
 #include <fcppt/parse/error.hpp>
@@ -35,21 +36,6 @@ namespace
 {
 using namespace c12;
 
-enum fault_mode
-{
-  NONE = 0,
-  EOF_ONCE,
-  EOF_FOREVER,
-  THROW_READ,
-  SEEK_FAIL,
-  SEEK_THROW
-};
-char const *mode_name(int m)
-{
-  char const *n[] = {"none", "eof_once", "eof_forever", "throw_read", "seek_fail", "seek_throw"};
-  return n[m];
-}
-
 // number of violations recorded so far in this process (to tell "the fault was not reached because an
 // earlier check of this case already failed" from a broken harness)
 std::uint64_t fails()
@@ -59,65 +45,6 @@ std::uint64_t fails()
     c += kv.second;
   return c;
 }
-
-template <class Ch> struct faulty_buf : std::basic_streambuf<Ch>
-{
-  using base = std::basic_streambuf<Ch>;
-  using traits = typename base::traits_type;
-  using int_type = typename base::int_type;
-  using pos_type = typename base::pos_type;
-  using off_type = typename base::off_type;
-
-  std::basic_string<Ch> text;
-  std::size_t idx = 0;
-  int mode = NONE;
-  int k = 0;
-  int reads = 0, seeks = 0;
-  bool fired_now = false, fired_ever = false;
-
-  faulty_buf(std::basic_string<Ch> t, int m, int kk) : text(std::move(t)), mode(m), k(kk) {}
-
-  int_type read(bool consume)
-  {
-    ++reads;
-    bool const f = (mode == EOF_ONCE || mode == THROW_READ) ? reads == k : mode == EOF_FOREVER ? reads >= k : false;
-    if (f)
-    {
-      fired_now = fired_ever = true;
-      if (mode == THROW_READ)
-        throw std::runtime_error("injected read failure");
-      return traits::eof();
-    }
-    if (idx >= text.size())
-      return traits::eof();
-    Ch const c = text[idx];
-    if (consume)
-      ++idx;
-    return traits::to_int_type(c);
-  }
-  int_type underflow() override { return read(false); }
-  int_type uflow() override { return read(true); }
-  pos_type seekoff(off_type off, std::ios_base::seekdir dir, std::ios_base::openmode which) override
-  {
-    ++seeks;
-    if ((mode == SEEK_FAIL || mode == SEEK_THROW) && seeks == k)
-    {
-      fired_now = fired_ever = true;
-      if (mode == SEEK_THROW)
-        throw std::runtime_error("injected seek failure");
-      return pos_type(off_type(-1));
-    }
-    if (!(which & std::ios_base::in))
-      return pos_type(off_type(-1));
-    off_type const b = dir == std::ios_base::beg ? off_type(0) : dir == std::ios_base::cur ? static_cast<off_type>(idx) : static_cast<off_type>(text.size());
-    off_type const np = b + off;
-    if (np < 0 || np > static_cast<off_type>(text.size()))
-      return pos_type(off_type(-1));
-    idx = static_cast<std::size_t>(np);
-    return pos_type(np);
-  }
-  pos_type seekpos(pos_type p, std::ios_base::openmode which) override { return seekoff(off_type(p), std::ios_base::beg, which); }
-};
 
 template <class Ch> struct fault_runner
 {
